@@ -38,6 +38,8 @@ def or_leaves(e, acc):
 
 
 def run(rep, tier):
+    from .common import unknown_helpers_are_not_violations
+    unknown_helpers_are_not_violations(rep, ("C14.R2", "C14.R3", "C14.R4", "C14.R8", "C14.R9", "C14.R10", "C14.R12"))
     rep.rule("C14.R1", "K8: token_ref_mask, stop_requested_flag, source_ref_mask, locked_flag are disjoint, cover 64 bits; increments are the masks' lowest bits")
     rep.rule("C14.R8", "K4/K8 (generation agreement): in every compare-exchange on the packed word state_ the desired word is computed from the same generation of the word as the "
              "expected one - after a failed attempt or a reload both are recomputed before the next attempt (a stale desired word rolls back other threads' updates of the counts / the stop bit)")
@@ -134,8 +136,12 @@ def run(rep, tier):
                         "re-tested for the stop bit: if another thread completed request_stop() in between, this call also "
                         "succeeds (second request_stop returns true / callback registered after stop and never run). facts: %s"
                         % (w, sorted(fb)), path=[{"block": x} for x in block_path(fn, b)])
+            allbits = 0
+            for v_ in vals:
+                if isinstance(v_, int):
+                    allbits |= v_              # a named constant may carry several flags
             for flag in want:
-                if c[flag] in vals:
+                if c[flag] in vals or (allbits & c[flag]) == c[flag]:
                     rep.ok("C14.R2", fn, "CAS desired value sets %s" % flag)
                 else:
                     rep.bad("C14.R2", fn, loc_of(ev), "desired-missing:" + flag, "CAS desired value %s does not set %s" % (T(desired), flag))
@@ -160,7 +166,9 @@ def run(rep, tier):
                callee_short(ev).startswith("compare_exchange") and P(ev.get("recv")) == "this->state_"]
         for cb, ci, cev in cas:
             E = P(cev["args"][0])
-            dvars = sorted({x.get("name") for x in subexprs(cev["args"][1], lambda y: isinstance(y, dict) and y.get("k") == "var" and not y.get("global") and "val" not in y)})
+            from engine.kinds import expand_locals as _xl8
+            # a desired value kept in a const local ('auto const desired = old | flag; cas(expected, desired)') reads like the expression itself
+            dvars = sorted({x.get("name") for x in subexprs(_xl8(fn, cev["args"][1]), lambda y: isinstance(y, dict) and y.get("k") == "var" and not y.get("global") and "val" not in y)})
             if len(dvars) != 1:
                 raise AnalysisBroken("%s: cannot identify the word the desired value %s is computed from" % (fn.qname, T(cev["args"][1])))
             W = dvars[0]
@@ -607,8 +615,10 @@ def r9_rules(rep, F, get):
         if not cas:
             raise AnalysisBroken("%s: compare-exchange on state_ not found" % fn.qname)
         exp_vars = set(strip(e["args"][0]).get("name") for _, _, e in cas if strip(e["args"][0]).get("k") == "var")
+        from engine.kinds import expand_locals as _xl9
+        des9 = {id(e): _xl9(fn, e["args"][1]) for _, _, e in cas}
         for _, _, e in cas:
-            for x in subexprs(e["args"][1], lambda y: isinstance(y, dict) and y.get("k") == "var"):
+            for x in subexprs(des9[id(e)], lambda y: isinstance(y, dict) and y.get("k") == "var"):
                 if x.get("name") not in exp_vars and not x.get("param") and re.match(r"^\w+$", str(x.get("name", ""))):
                     words.add(x.get("name"))
         words -= exp_vars
@@ -631,7 +641,7 @@ def r9_rules(rep, F, get):
             for w in sorted(words):
                 readers = [b for b in comp if fn.blocks[b].cond is not None and re.search(r"(^|[^\w.>])%s($|[^\w])" % re.escape(w), cond_atoms(fn.blocks[b].cond)[0])]
                 # the compare-exchange itself reads the word too (its desired value)
-                readers += [b for b, i, e in cas if b in comp and any(x.get("name") == w for x in subexprs(e["args"][1], lambda y: isinstance(y, dict) and y.get("k") == "var"))]
+                readers += [b for b, i, e in cas if b in comp and any(x.get("name") == w for x in subexprs(des9[id(e)], lambda y: isinstance(y, dict) and y.get("k") == "var"))]
                 if not readers:
                     continue
                 fresh_blocks = set(b for b in comp if any(fresh_write(e, w) for e in fn.blocks[b].events))
@@ -960,8 +970,8 @@ def word_predicates(rep, F, c):
     def value(name, w, depth=0):
         f = preds[name]
         rets = [e for _, _, e in f.all_events() if e.get("k") == "return" and e.get("e") is not None]
-        if len(rets) != 1 or depth > 3:
-            raise AnalysisBroken("stop_state::%s: expected a single return expression" % name)
+        if depth > 3 or not rets:
+            raise AnalysisBroken("stop_state::%s: no return expression" % name)
 
         def h(e, env):
             if e.get("k") == "call" and callee_short(e) in preds and len(e.get("args") or []) == 1:
@@ -972,7 +982,19 @@ def word_predicates(rep, F, c):
             env[SSq + "::" + k_] = v_
             env["stop_state::" + k_] = v_
             env[k_] = v_
-        return bool(eval_tree(expand_locals(f, rets[0]["e"]), env))
+        if len(rets) == 1:
+            return bool(eval_tree(expand_locals(f, rets[0]["e"]), env))
+        # several returns (if / return chains): run the function on the word
+        from engine.kinds import interp as _in11
+        res = _in11(f, env, unknown_both=False)
+        outs = set()
+        for end, e_, evs, ev in res:
+            if end != "return" or ev is None or ev.get("e") is None:
+                raise Unknown("%s does not run to a return for the sample word" % name)
+            outs.add(bool(eval_tree(ev["e"], e_)))
+        if len(outs) != 1:
+            raise Unknown("%s: ambiguous" % name)
+        return outs.pop()
     for name in sorted(spec):
         wrong = None
         for w in words:
